@@ -27,6 +27,8 @@ Expected(ev) ==
     [] ev.cls = "QAveragePooling2D" ->
          LET s == PoolSum(ev.x, ev.ph, ev.pw, ev.g.sh, ev.g.sw) IN
          [a \in 1..Len(s) |-> [b \in 1..Len(s[1]) |-> [c \in 1..Len(s[1][1]) |-> s[a][b][c] * ev.qm]]]
+    [] ev.cls = "QScaleShift" ->           \* one scalar weight and one scalar bias shared by the whole tensor
+         [k \in 1..Len(ev.x) |-> ev.x[k] * ev.qk[1][1] + (IF ev.usebias = 1 THEN ev.qb[1] ELSE 0)]
     [] ev.cls = "QGlobalAveragePooling2D" ->
          LET s == GlobalSum(ev.x) IN [c \in 1..Len(s) |-> s[c] * ev.qm]
 Verdicts(ev) ==
